@@ -213,23 +213,23 @@ class Ref:
                 l.insert(libs[-1] + 1, END)
                 l.insert(libs[0], START)
         if self.ddirs:
+            # index-free meaning: drop -isystem<dir> / -isystem=<dir> of a default dir, a bare -isystem
+            # whose operand is a default dir, and that operand; keep everything else in order
             real = [os.path.realpath(d) for d in self.ddirs]
-            bad = []
+            out, operand = [], False
             for i, a in enumerate(l):
-                if not a.startswith('-isystem'):
-                    continue
+                me, nxt = False, False
                 if a == '-isystem':
                     if i + 1 < len(l) and os.path.realpath(l[i + 1]) in real:
-                        bad += [i, i + 1]
+                        me = nxt = True
                 elif a.startswith('-isystem='):
-                    if os.path.realpath(a[9:]) in real:
-                        bad += [i]
-                elif os.path.realpath(a[8:]) in real:
-                    bad += [i]
-            for i in reversed(bad):
-                if i >= len(l):
-                    return l, False
-                del l[i]
+                    me = os.path.realpath(a[9:]) in real
+                elif a.startswith('-isystem'):
+                    me = os.path.realpath(a[8:]) in real
+                if not (operand or me):
+                    out.append(a)
+                operand = nxt
+            l = out
         return l, True
 
 
